@@ -190,7 +190,11 @@ def main(tier: str, selftest_cases: int = 0) -> int:
         rep.coverage["differential_inputs"] = nd
         if bad:
             rep.violation("C16:differential", f"{len(bad)} inputs are treated differently by the shipped parser "
-                          f"and a parser built from the grammar, e.g. {bad[0]}", replay(bad[:5]))
+                          f"and a parser built from the grammar, e.g. {bad[0]}",
+                          # the shipped runtime is one long-lived object: each input is replayed under
+                          # every start symbol in the order it was run here, so a difference that
+                          # needs an earlier parse of the same text shows in the replay as well
+                          replay([(t, s) for t in dict.fromkeys(t for t, _ in bad[:5]) for s in a.start]))
     # ---- driver / witness validation against the real parsers -----------------------------
     # (only meaningful while the shipped tables are sane: with a corrupt table the real parser
     # crashes where the reference driver rejects, and the violation is already reported)
